@@ -161,7 +161,9 @@ class _D(ast.NodeTransformer):
                     r = self.visit_Assign(_loc(ast.Assign(targets=[a], value=b, type_comment=None), node))
                     out.extend(r if isinstance(r, list) else [r])
                 return out
-        if isinstance(t, ast.Name) and isinstance(v, ast.IfExp):
+        if isinstance(v, ast.IfExp) and (isinstance(t, ast.Name) or (
+                isinstance(t, ast.Tuple) and all(isinstance(e, ast.Name) for e in t.elts)
+                and not ({e.id for e in t.elts} & {x.id for x in ast.walk(v.test) if isinstance(x, ast.Name)}))):
             a = self.visit_Assign(_loc(ast.Assign(targets=[copy.deepcopy(t)], value=v.body, type_comment=None), node))
             b = self.visit_Assign(_loc(ast.Assign(targets=[copy.deepcopy(t)], value=v.orelse, type_comment=None), node))
             return _loc(ast.If(test=v.test, body=a if isinstance(a, list) else [a], orelse=b if isinstance(b, list) else [b]), node)
@@ -482,7 +484,15 @@ def desugar(fnode):
     d.gens = {n.targets[0].id: n.value for n in ast.walk(f) if isinstance(n, ast.Assign) and len(n.targets) == 1 and isinstance(n.targets[0], ast.Name)
               and isinstance(n.value, ast.GeneratorExp) and cnt.get(n.targets[0].id, (0, 0))[0] == 1
               and (cnt.get(n.targets[0].id) == (1, 1) or (cnt[n.targets[0].id][1] > 1 and _max_loads(f.body, n.targets[0].id) == 1))}
-    return d.visit(f)
+    f = d.visit(f)
+    # values picked by a branch (now written as if-statements) and used once by the next statement: written at that use, then the
+    # result is brought to canonical form once more
+    before = ast.dump(f)
+    f = sink(f)
+    if ast.dump(f) != before:
+        ast.fix_missing_locations(f)
+        f = d.visit(f)
+    return f
 
 
 def literal_bindings(root):
